@@ -267,7 +267,8 @@ func (u *Unit) makeIface(st *State, v Term, t types.Type) Term {
 	u.assume("(= (rootid " + r + ") " + a + ")")
 	u.set(st, "alloc", "(+ "+a+" 1)")
 	if s != SUnit {
-		u.assume("(= (" + u.boxFn(s) + " " + r + ") " + v + ")")
+		// under the path condition: two exclusive paths may box different values at the same allocation counter
+		u.assume(implies(st.guard, "(= ("+u.boxFn(s)+" "+r+") "+v+")"))
 	}
 	return fmt.Sprintf("(mkIface %d %s)", tag, r)
 }
